@@ -806,7 +806,7 @@ class SegmentReader(IndexReader):
         text = self._text_to_bytes(fieldname, text)
         try:
             return self._terms.frequency(fieldname, text)
-        except KeyError:
+        except (KeyError, TermNotFound):
             return 0
 
     def doc_frequency(self, fieldname, text):
@@ -814,7 +814,7 @@ class SegmentReader(IndexReader):
         text = self._text_to_bytes(fieldname, text)
         try:
             return self._terms.doc_frequency(fieldname, text)
-        except KeyError:
+        except (KeyError, TermNotFound):
             return 0
 
     @cached_property
